@@ -572,6 +572,78 @@ fixed_point = Contract(
 fixed_point.loops = {1: FPI_LOOP}
 
 
+# ------------------------------------------------------------------ the same solver on a scalar (0-d array / numpy scalar) input
+class ScalarFn:
+    """`function` on a 0-d argument: an arbitrary 0-d result (fresh at every call) with the one hypothesis NaN in -> NaN out; the last call is recorded"""
+
+    def __call__(self, interp, st, args, kwargs):
+        x = st.deref(args[0])
+        if not isinstance(x, _Arr) or x.ndim != 0 or len(args) != 1 or kwargs:
+            raise _T.Unsupported("function model: one 0-d array argument")
+        v, n = _T.Fresh.real("function_value"), _T.Fresh.bool("function_nan")
+        res = _Arr((), lambda ix, x=x, v=v, n=n: _T.xr(v, _T.lor(_T.xnan(x.get(())), n)), (), "real", "function_result")
+        st.ghost["function_call"] = (x, res)
+        return st.alloc(res, "function_result")
+
+
+def _p_fpi0(bounds, config):
+    def p(mk):
+        d = _p_fpi(bounds, config)(mk)
+        d.update({"function": ScalarFn(), "guess": mk.array("guess", (), "xreal")})
+        return d
+    return p
+
+
+def _inv0_nan_stays(ns):
+    return implies(isnan(ns.guess[()]), isnan(ns.iterates[2][()]))
+
+
+def _inv0_converged(ns):
+    it, c = ns.iterates, ns.configuration
+    return implies(ns.converged[()], _conv_test(it[2][()], it[1][()], _cfg(c, "atol"), _cfg(c, "rtol")))
+
+
+FPI0_LOOP = LoopContract(invariant=[("missing_guess_stays_missing", _inv0_nan_stays),
+                                    ("converged_flag_implies_the_convergence_test_between_the_last_two_iterates", _inv0_converged)])
+
+
+def _post0_converged(a, r):
+    if _fpi_exit(a) != "break":
+        return True
+    if "function_call" not in a._ghost:
+        return False                 # left through `break` after a step that did not apply the function
+    prev, fprev = a._ghost["function_call"]
+    c = a.configuration
+    x, p = r[()], prev.get(())
+    return implies(And(eq(_cfg(c, "fraction_of_points"), 1), notnan(a.guess[()])),
+                   And(_conv_test(x, p, _cfg(c, "atol"), _cfg(c, "rtol")), eq(x, _clamp(fprev.get(()), p, _fpi_bounds(a)))))
+
+
+def _post0_exhausted(a, r):
+    if _fpi_exit(a) != "exhausted":
+        return True
+    c = a.configuration
+    it = a._ghost["locals"]["iterates"]
+    prev = a._snap.deref(a._snap.deref(it)[1])
+    return And(Not(_cfg(c, "error_if_not_converged")), Or(isnan(r[()]), _conv_test(r[()], prev.get(()), _cfg(c, "atol"), _cfg(c, "rtol"))))
+
+
+FPI0_INST = [(f"{b},{c}", _p_fpi0(b, c)) for b, c in (("unbounded", "default"), ("lower", "default"), ("both", "record"))]
+fixed_point_scalar = Contract(
+    S + "fixed_point_iteration", instances=FPI0_INST,
+    requires=[("guess_is_finite_or_missing", lambda a: _finite_or_nan(a.guess[()]))],
+    ensures=[("converged_exit_a_finite_guess_gives_an_approximate_fixed_point_of_the_clamped_function", _post0_converged),
+             ("missing_guess_is_returned_missing", lambda a, r: implies(isnan(a.guess[()]), isnan(r[()]))),
+             ("exhausted_exit_returns_nan_or_a_value_that_passed_the_convergence_test_and_only_when_errors_are_off", _post0_exhausted),
+             ("iteration_depth_counter_restored", _post_depth),
+             ("result_is_0d", lambda a, r: tuple(r.shape) == ())],
+    raises={"ValueError": lambda a: And(("configuration" in a) and a.configuration is not None, _cfg(a.configuration if "configuration" in a else None, "error_if_not_converged"))},
+    options={"loop_invariants": {lab: {1: FPI0_LOOP} for lab, _ in FPI0_INST}, "expose_locals": True},
+    label="fixed_point_iteration[0-d]",
+)
+fixed_point_scalar.loops = {1: FPI0_LOOP}
+
+
 # ------------------------------------------------------------------ Charnock roughness from U10 (numpy input): the solver's exit contract at its call site
 import pyvc.models.xr   # noqa  (charnock_roughness_length wraps its argument in a DataArray)
 NU_AIR, GRAV = Fraction(37, 2500000), Fraction(981, 100)
@@ -937,7 +1009,7 @@ def _bounded_janssen(tier, seed):
 
 BOUNDED = [Bounded("janssen.stress_balance.compiled", _bounded_janssen, "NaN-or-positive and closure of the stress balance at the returned roughness"),
            Bounded("charnock.implicit_equation", _bounded_charnock, "residual of the implicit Charnock equation at the returned roughness; NaN handling; monotonicity")]
-CONTRACTS = [drag, wu, charnock_point, newton_solver, estimate_point, stress_balance, total_stress, estimate_wiring, fixed_point, charnock_relation, charnock_from_u10]
+CONTRACTS = [drag, wu, charnock_point, newton_solver, estimate_point, stress_balance, total_stress, estimate_wiring, fixed_point, fixed_point_scalar, charnock_relation, charnock_from_u10]
 TRUSTED = ["A-table: exp(x) > 0; exp(x) <= 1 for x <= 0; sqrt(x) > 0 for x > 0; log is an uninterpreted function (formula contracts are syntactic in log); that e^-20 <= exp(x) "
            "for x >= -20 (monotonicity of exp) is mathematics outside the contract: the clause is stated for x = log z0",
            "numba_newton_raphson: the function handed to it is a deterministic, total, real-valued function of its first argument (NaN stress values are outside the model); "
